@@ -300,7 +300,13 @@ fn python_style_comments_parser(
         language,
         Box::new(move |node, source_code| {
             if node.kind() == comment_node_kind {
-                Some(source_code[node.byte_range()].replacen("#", " ", 1))
+                let comment = &source_code[node.byte_range()];
+                // Only a leading "#" is a delimiter (Ruby's "=begin ... =end" comments have none).
+                Some(if comment.starts_with('#') {
+                    comment.replacen("#", " ", 1)
+                } else {
+                    comment.to_string()
+                })
             } else {
                 None
             }
